@@ -199,8 +199,8 @@ func VH_C18_writetext_advances_Q() {
 	glyphs := make([]canvasText.Glyph, n)
 	laid := make([]int32, n)
 	for i := range glyphs {
-		vhC18Own[i+1] = uint16(vNondetIntN(13)) & 0x0FFF
-		laid[i] = int32(vNondetIntN(14))
+		vhC18Own[i+1] = uint16(vNondetIntQ(13)) & 0x0FFF
+		laid[i] = int32(vNondetIntQ(14))
 		glyphs[i] = canvasText.Glyph{SFNT: sf, Size: 10, ID: uint16(i + 1), Vertical: vertical}
 		if vertical {
 			glyphs[i].YAdvance = laid[i]
